@@ -22,7 +22,9 @@ import (
 // it gives on fresh objects and leave the deep snapshot of the shared objects unchanged.
 type sharedObj struct {
 	name string
-	mk   func() (shared any, ops []func() string, opNames []string)
+	mk   func() (shared any, ops []func() string, opNames []string, held func() string)
+	// held (may be nil) re-examines the results earlier operations returned and the caller still holds: a non-empty
+	// string says which one a later call has modified
 }
 
 func sisObjects() []sharedObj {
@@ -30,7 +32,7 @@ func sisObjects() []sharedObj {
 	var l []sharedObj
 	for _, p := range [][3]int{{4, 8, 64}, {9, 16, 600}, {9, 8, 300}, {6, 16, 70}} {
 		p := p
-		l = append(l, sharedObj{fmt.Sprintf("koalabear-sis%v", p), func() (any, []func() string, []string) {
+		l = append(l, sharedObj{fmt.Sprintf("koalabear-sis%v", p), func() (any, []func() string, []string, func() string) {
 			k, err := kbsis.NewRSis(5, p[0], p[1], p[2])
 			if err != nil {
 				panic(err)
@@ -47,10 +49,10 @@ func sisObjects() []sharedObj {
 					return d(res) + d(err)
 				}
 			}
-			return []any{k, in}, []func() string{h(in), h(short)}, []string{"Hash(full)", "Hash(short)"}
+			return []any{k, in}, []func() string{h(in), h(short)}, []string{"Hash(full)", "Hash(short)"}, nil
 		}})
 	}
-	l = append(l, sharedObj{"babybear-sis", func() (any, []func() string, []string) {
+	l = append(l, sharedObj{"babybear-sis", func() (any, []func() string, []string, func() string) {
 		k, _ := bbsis.NewRSis(5, 9, 16, 600)
 		in := make([]babybear.Element, 600)
 		for i := range in {
@@ -63,9 +65,9 @@ func sisObjects() []sharedObj {
 				return d(res) + d(err)
 			}
 		}
-		return []any{k, in}, []func() string{h(in), h(in[:77])}, []string{"Hash(full)", "Hash(short)"}
+		return []any{k, in}, []func() string{h(in), h(in[:77])}, []string{"Hash(full)", "Hash(short)"}, nil
 	}})
-	l = append(l, sharedObj{"goldilocks-sis", func() (any, []func() string, []string) {
+	l = append(l, sharedObj{"goldilocks-sis", func() (any, []func() string, []string, func() string) {
 		k, _ := glsis.NewRSis(5, 5, 16, 70)
 		in := make([]goldilocks.Element, 70)
 		for i := range in {
@@ -78,11 +80,11 @@ func sisObjects() []sharedObj {
 				return d(res) + d(err)
 			}
 		}
-		return []any{k, in}, []func() string{h(in), h(in[:9])}, []string{"Hash(full)", "Hash(short)"}
+		return []any{k, in}, []func() string{h(in), h(in[:9])}, []string{"Hash(full)", "Hash(short)"}, nil
 	}})
 	for _, p := range [][3]int{{6, 16, 20}, {3, 8, 20}} {
 		p := p
-		l = append(l, sharedObj{fmt.Sprintf("bls12-377-sis%v", p), func() (any, []func() string, []string) {
+		l = append(l, sharedObj{fmt.Sprintf("bls12-377-sis%v", p), func() (any, []func() string, []string, func() string) {
 			k, _ := sis377.NewRSis(5, p[0], p[1], p[2])
 			in := make([]fr377.Element, p[2])
 			for i := range in {
@@ -96,10 +98,10 @@ func sisObjects() []sharedObj {
 					return d(res) + d(err)
 				}
 			}
-			return []any{k, in}, []func() string{h(in), h(in[:5])}, []string{"Hash(full)", "Hash(short)"}
+			return []any{k, in}, []func() string{h(in), h(in[:5])}, []string{"Hash(full)", "Hash(short)"}, nil
 		}})
 	}
-	l = append(l, sharedObj{"koalabear-vortex", func() (any, []func() string, []string) {
+	l = append(l, sharedObj{"koalabear-vortex", func() (any, []func() string, []string, func() string) {
 		sp, _ := kbsis.NewRSis(7, 4, 8, 8)
 		params, err := vortex.NewParams(8, 8, sp, 2, 3)
 		if err != nil {
@@ -132,22 +134,45 @@ func sisObjects() []sharedObj {
 			ps.OpenLinComb(alpha)
 			return d(ps.Ualpha)
 		}
+		type heldProof struct {
+			pr   *vortex.Proof
+			dump string
+		}
+		var heldProofs []heldProof
 		open := func() string {
 			ps.OpenLinComb(alpha)
 			pr, err := ps.OpenColumns([]int{0, 5, 15})
+			if err == nil {
+				heldProofs = append(heldProofs, heldProof{pr, vlib.DeepDump(pr)}) // the caller keeps the proof
+			}
 			return d(pr) + d(err)
 		}
-		return []any{params, input, ps.EncodedMatrix, ps.SisHashes, ps.MerkleTree}, []func() string{commit, lin, open}, []string{"Commit", "OpenLinComb", "OpenLinComb+OpenColumns"}
+		var beta fext.E4
+		beta.B0.A0.SetUint64(13)
+		beta.B1.A1.SetUint64(17)
+		lin2 := func() string { // another combination on the same prover state
+			ps.OpenLinComb(beta)
+			return d(ps.Ualpha)
+		}
+		held := func() string {
+			for i, h := range heldProofs {
+				if vlib.DeepDump(h.pr) != h.dump {
+					return fmt.Sprintf("the proof returned by OpenColumns call #%d", i+1)
+				}
+			}
+			return ""
+		}
+		return []any{params, input, ps.EncodedMatrix, ps.SisHashes, ps.MerkleTree}, []func() string{commit, lin, open, lin2}, []string{"Commit", "OpenLinComb", "OpenLinComb+OpenColumns", "OpenLinComb(another coefficient)"}, held
 	}})
 	return l
 }
 
 func runShared(r *vlib.Run, g string, o sharedObj, depth int) {
 	// isolated results: each computation on fresh objects
-	_, ops0, names := o.mk()
+	_, ops0, names, _ := o.mk()
 	iso := make([]string, len(ops0))
 	for i := range ops0 {
-		_, ops, _ := o.mk()
+		_, ops, _, _ := o.mk()
 		iso[i] = ops[i]()
 	}
 	n := len(names)
@@ -163,7 +188,7 @@ func runShared(r *vlib.Run, g string, o sharedObj, depth int) {
 			seq[i] = x % n
 			x /= n
 		}
-		shared, ops, _ := o.mk()
+		shared, ops, _, held := o.mk()
 		snap := vlib.DeepDump(shared)
 		id := ""
 		for step, k := range seq {
@@ -176,6 +201,12 @@ func runShared(r *vlib.Run, g string, o sharedObj, depth int) {
 			states++
 			if got != iso[k] {
 				r.FailIn(g, "pure/"+o.name+"/result-depends-on-history/"+names[k], id, fmt.Sprintf("%s: call %d (%s) of the history %s on shared objects differs from its result on fresh objects", o.name, step+1, names[k], id), nil)
+			}
+			if held != nil {
+				if what := held(); what != "" {
+					r.FailIn(g, "pure/"+o.name+"/returned-result-modified-by-a-later-call/"+names[k], id, fmt.Sprintf("%s: after the history %s, %s (still held by the caller) has changed", o.name, id, what), nil)
+					break
+				}
 			}
 			if vlib.DeepDump(shared) != snap {
 				r.FailIn(g, "pure/"+o.name+"/argument-modified/"+names[k], id, fmt.Sprintf("%s: %s modified the shared key / parameters / input", o.name, names[k]), nil)
